@@ -3,12 +3,20 @@
 package portalwire
 
 import (
+	"bytes"
+	"context"
 	"errors"
+	"net"
 	"time"
 
+	"github.com/VictoriaMetrics/fastcache"
+	"github.com/ethereum/go-ethereum/p2p/discover"
 	"github.com/ethereum/go-ethereum/p2p/enode"
 	"github.com/ethereum/go-ethereum/p2p/enr"
 	cache "github.com/go-pkgz/expirable-cache/v3"
+	"github.com/holiman/uint256"
+	"github.com/zen-eth/shisui/storage"
+	utp "github.com/zen-eth/utp-go"
 )
 
 // ---------------------------------------------------------------------------------------------
@@ -135,8 +143,13 @@ func vhVersionCache() cache.Cache[*enode.Node, uint8] {
 //verif:group node
 //verif:stub attr (*github.com/ethereum/go-ethereum/p2p/enode.Node).ID (*github.com/ethereum/go-ethereum/p2p/enode.Node).Seq (*github.com/ethereum/go-ethereum/p2p/enode.Node).UDP (*github.com/ethereum/go-ethereum/p2p/enode.Node).TCP (*github.com/ethereum/go-ethereum/p2p/enode.Node).IP (*github.com/ethereum/go-ethereum/p2p/enode.Node).IPAddr (*github.com/ethereum/go-ethereum/p2p/enode.Node).Record
 //verif:stub havoc (net.IP).To4
-//verif:stub noop (net.IP).String (github.com/ethereum/go-ethereum/p2p/enode.ID).String (*github.com/ethereum/go-ethereum/p2p/enode.Node).String (*net.UDPAddr).String
+//verif:model (github.com/ethereum/go-ethereum/p2p/enode.ID).String = vmIDString
+//verif:stub noop (net.IP).String (net/netip.Addr).String (*github.com/ethereum/go-ethereum/p2p/enode.Node).String (*net.UDPAddr).String
 func vgNode() {}
+
+// vmIDString: an injective rendering of the id (the real one is its hex form); it is only used as
+// a cache key and in log lines.
+func vmIDString(id enode.ID) string { return string(id[:]) }
 
 // The routing table behind its request channels: every answer is arbitrary.
 //
@@ -145,3 +158,240 @@ func vgNode() {}
 //verif:stub havoc (*github.com/zen-eth/shisui/portalwire.Table).addInboundNode (*github.com/zen-eth/shisui/portalwire.Table).addFoundNode
 //verif:stub noop (*github.com/zen-eth/shisui/portalwire.Table).trackRequest
 func vgTableStub() {}
+
+// ---- fastcache model: last-write-wins association list per cache -------------------------------
+
+type vmFC struct {
+	keys, vals [][]byte
+}
+
+var vmFCs = map[*fastcache.Cache]*vmFC{}
+
+func vmFCOf(c *fastcache.Cache) *vmFC {
+	f := vmFCs[c]
+	if f == nil {
+		f = &vmFC{}
+		vmFCs[c] = f
+	}
+	return f
+}
+
+//verif:group fastcache
+//verif:model (*github.com/VictoriaMetrics/fastcache.Cache).Set = vmFCSet
+//verif:model (*github.com/VictoriaMetrics/fastcache.Cache).Get = vmFCGet
+//verif:model (*github.com/VictoriaMetrics/fastcache.Cache).HasGet = vmFCHasGet
+//verif:model (*github.com/VictoriaMetrics/fastcache.Cache).Has = vmFCHas
+//verif:model (*github.com/VictoriaMetrics/fastcache.Cache).Del = vmFCDel
+func vgFastcache() {}
+
+func (f *vmFC) find(k []byte) int {
+	for i := range f.keys {
+		if bytes.Equal(f.keys[i], k) {
+			return i
+		}
+	}
+	return -1
+}
+
+func vmFCSet(c *fastcache.Cache, k, v []byte) {
+	f := vmFCOf(c)
+	if i := f.find(k); i >= 0 {
+		f.vals[i] = append([]byte(nil), v...)
+		return
+	}
+	f.keys = append(f.keys, append([]byte(nil), k...))
+	f.vals = append(f.vals, append([]byte(nil), v...))
+}
+
+func vmFCGet(c *fastcache.Cache, dst, k []byte) []byte {
+	f := vmFCOf(c)
+	if i := f.find(k); i >= 0 {
+		return append(dst, f.vals[i]...)
+	}
+	return dst
+}
+
+func vmFCHasGet(c *fastcache.Cache, dst, k []byte) ([]byte, bool) {
+	f := vmFCOf(c)
+	if i := f.find(k); i >= 0 {
+		return append(dst, f.vals[i]...), true
+	}
+	return dst, false
+}
+
+func vmFCHas(c *fastcache.Cache, k []byte) bool { return vmFCOf(c).find(k) >= 0 }
+
+func vmFCDel(c *fastcache.Cache, k []byte) {
+	f := vmFCOf(c)
+	if i := f.find(k); i >= 0 {
+		f.keys = append(append([][]byte(nil), f.keys[:i]...), f.keys[i+1:]...)
+		f.vals = append(append([][]byte(nil), f.vals[:i]...), f.vals[i+1:]...)
+	}
+}
+
+// ---- content store model with a per-key "already stored" oracle --------------------------------
+
+type vmStorage struct {
+	stored [][]byte // keys that are present
+	radius *uint256.Int
+	gets   int
+}
+
+func (s *vmStorage) Get(k, id []byte) ([]byte, error) {
+	s.gets++
+	for _, x := range s.stored {
+		if bytes.Equal(x, k) {
+			return []byte{0xaa}, nil
+		}
+	}
+	return nil, storage.ErrContentNotFound
+}
+func (s *vmStorage) Put(k, id, c []byte) error { s.stored = append(s.stored, k); return nil }
+func (s *vmStorage) Radius() *uint256.Int      { return s.radius }
+func (s *vmStorage) Close() error              { return nil }
+
+// ---- offer / transfer environment ---------------------------------------------------------------
+
+type vmOfferEnv struct {
+	selfID       [32]byte
+	cidSend      uint16
+	acceptCalls  int
+	acceptFails  bool
+	readFails    bool
+	stream       []byte
+	dialFails    bool
+	writeFails   bool
+	written      []byte
+	talkFails    bool
+	talkResp     []byte
+	talkRequests int
+}
+
+var vmEnv *vmOfferEnv
+
+//verif:group offerenv
+//verif:use node tablestub enr fastcache
+//verif:model (*github.com/ethereum/go-ethereum/p2p/enode.LocalNode).Node = vmLocalNode
+//verif:model (*github.com/zen-eth/shisui/portalwire.UtpTransportService).CidWithAddr = vmCidWithAddr
+//verif:model (*github.com/zen-eth/shisui/portalwire.UtpTransportService).AcceptWithCid = vmAcceptWithCid
+//verif:model (*github.com/zen-eth/shisui/portalwire.UtpTransportService).DialWithCid = vmDialWithCid
+//verif:model (*github.com/zen-eth/utp-go.UtpStream).ReadToEOF = vmStreamReadToEOF
+//verif:model (*github.com/zen-eth/utp-go.UtpStream).Write = vmStreamWrite
+//verif:model (*github.com/ethereum/go-ethereum/p2p/discover.UDPv5).TalkRequest = vmTalkRequest
+//verif:stub noop (*github.com/zen-eth/utp-go.UtpStream).Close
+func vgOfferEnv() {}
+
+var vmSelfNode = new(enode.Node)
+
+func vmLocalNode(ln *enode.LocalNode) *enode.Node { return vmSelfNode }
+
+func vmCidWithAddr(z *UtpTransportService, dst *enode.Node, addr *net.UDPAddr, isInitiator bool) *utp.ConnectionId {
+	return &utp.ConnectionId{Send: vmEnv.cidSend, Recv: vmEnv.cidSend + 1}
+}
+
+// vmAcceptWithCid: the announced connection is taken up at most once.
+func vmAcceptWithCid(z *UtpTransportService, ctx context.Context, cid *utp.ConnectionId) (*utp.UtpStream, error) {
+	vmEnv.acceptCalls++
+	if vmEnv.acceptCalls > 1 || vmEnv.acceptFails {
+		return nil, vmErrLoad
+	}
+	return new(utp.UtpStream), nil
+}
+
+func vmDialWithCid(z *UtpTransportService, ctx context.Context, dest *enode.Node, connId uint16) (*utp.UtpStream, error) {
+	if vmEnv.dialFails {
+		return nil, vmErrLoad
+	}
+	return new(utp.UtpStream), nil
+}
+
+func vmStreamReadToEOF(s *utp.UtpStream, ctx context.Context, data *[]byte) (int, error) {
+	if vmEnv.readFails {
+		return 0, vmErrLoad
+	}
+	*data = vmEnv.stream
+	return len(vmEnv.stream), nil
+}
+
+func vmStreamWrite(s *utp.UtpStream, ctx context.Context, b []byte) (int, error) {
+	if vmEnv.writeFails {
+		return 0, vmErrLoad
+	}
+	vmEnv.written = b
+	return len(b), nil
+}
+
+func vmTalkRequest(t *discover.UDPv5, n *enode.Node, protocol string, req []byte) ([]byte, error) {
+	vmEnv.talkRequests++
+	if vmEnv.talkFails {
+		return nil, vmErrLoad
+	}
+	return vmEnv.talkResp, nil
+}
+
+// vhOfferProto: a protocol instance wired to the models; limit = uTP slots per direction.
+func vhOfferProto(limit int, versions protocolVersions, st *vmStorage) *PortalProtocol {
+	vmEnv = &vmOfferEnv{}
+	p := vhProto()
+	p.currentVersions = versions
+	p.storage = st
+	p.localNode = new(enode.LocalNode)
+	p.DiscV5 = new(discover.UDPv5)
+	p.toContentId = func(k []byte) []byte {
+		if len(k) == 0 {
+			return nil
+		}
+		id := make([]byte, 32)
+		copy(id, k)
+		return id
+	}
+	p.Utp = &UtpTransportService{utpController: newUtpController(limit)}
+	p.transferringKeyCache = new(fastcache.Cache)
+	p.radiusCache = new(fastcache.Cache)
+	p.offerQueue = make(chan *OfferRequestWithNode, 1)
+	return p
+}
+
+// vhFreeSlots: how many permits can be taken now (and gives them back).
+func vhFreeSlots(get func() (Permit, bool), limit int) int {
+	var taken []Permit
+	for i := 0; i <= limit; i++ {
+		pm, ok := get()
+		if !ok {
+			break
+		}
+		taken = append(taken, pm)
+	}
+	for _, pm := range taken {
+		pm.Release()
+	}
+	return len(taken)
+}
+
+func vhProto() *PortalProtocol {
+	return &PortalProtocol{
+		table:           &Table{},
+		protocolName:    "verif",
+		currentVersions: protocolVersions{0, 1},
+		versionsCache:   vhVersionCache(),
+		contentQueue:    make(chan *ContentElement, 1),
+		closeCtx:        context.Background(),
+	}
+}
+
+func vhOfferRequest(kind int, k int) *OfferRequest {
+	keys := make([][]byte, k)
+	entries := make([]*ContentEntry, k)
+	for i := range keys {
+		keys[i] = []byte{byte(i + 1)}
+		entries[i] = &ContentEntry{ContentKey: keys[i], Content: []byte{byte(0x10 + i)}}
+	}
+	switch kind {
+	case 0:
+		return &OfferRequest{Kind: TransientOfferRequestKind, Request: &TransientOfferRequest{Contents: entries}}
+	case 1:
+		return &OfferRequest{Kind: PersistOfferRequestKind, Request: &PersistOfferRequest{ContentKeys: keys}}
+	}
+	return &OfferRequest{Kind: TransientOfferRequestWithResultKind, Request: &TransientOfferRequestWithResult{
+		Content: &ContentEntry{ContentKey: []byte{1}, Content: []byte{0x10}}, Result: make(chan *OfferTrace, 1)}}
+}
